@@ -543,6 +543,8 @@ def check(pid, tier, seed):
     samples = []
     if corr is not None:
         ops = corr["ops_list"]
+        # concrete failing inputs (obs / crash) are reported before aux-only disagreements
+        corr["mismatches"].sort(key=lambda m: (0 if m["kind"] in ("obs", "crash") else 1, m["line"]))
         for m in corr["mismatches"]:
             k = m["line"]
             s = segment_of(ops, k)
